@@ -505,6 +505,41 @@ func c04(p *core.Program, r *core.Report) {
 		case "encoding/wkbcommon.ReadFlatCoords2":
 			return 2, "ring list"
 		}
+		// by role, whatever the function is called: the count times a stride parameter sizes a coordinate array;
+		// the count sizing a []int is the number of rings
+		var n ssa.Value = src
+		for _, rf := range eng.Referrers(src) {
+			if ex, isEx := rf.(*ssa.Extract); isEx && ex.Index == 0 {
+				n = ex
+			}
+		}
+		role := ""
+		for v := range eng.IntFlow(n) {
+			if mul, isMul := v.(*ssa.BinOp); isMul && mul.Op == token.MUL {
+				for _, o := range []ssa.Value{mul.X, mul.Y} {
+					if prm, isP := eng.StripConv(o).(*ssa.Parameter); isP && prm.Name() == "stride" {
+						role = "coords"
+					}
+				}
+			}
+			for _, rf := range eng.Referrers(v) {
+				if mk, isMk := rf.(*ssa.MakeSlice); isMk && role == "" {
+					if st, isS := mk.Type().Underlying().(*types.Slice); isS {
+						if bt, isB := st.Elem().Underlying().(*types.Basic); isB && bt.Kind() == types.Int {
+							role = "rings"
+						}
+					}
+				}
+			}
+		}
+		if core.FnPkgPath(fn) == mod+"/encoding/wkbcommon" {
+			switch role {
+			case "coords":
+				return 1, "coordinate array"
+			case "rings":
+				return 2, "ring list"
+			}
+		}
 		if k, ok := caseConstant(src.Block()); ok {
 			switch k {
 			case 4:
@@ -565,7 +600,7 @@ func c04(p *core.Program, r *core.Report) {
 		}
 		reach := eng.Reachable(fn.Blocks[0], blocked)
 		// the count handed back to the caller
-		if fn.Parent() == nil && !(fn.Name() == "ReadUInt32" && core.FnPkgPath(fn) == mod+"/encoding/wkbcommon") {
+		if !(fn.Name() == "ReadUInt32" && core.FnPkgPath(fn) == mod+"/encoding/wkbcommon") {
 			for _, b := range fn.Blocks {
 				ret, isRet := b.Instrs[len(b.Instrs)-1].(*ssa.Return)
 				if !isRet {
@@ -831,6 +866,7 @@ func c04(p *core.Program, r *core.Report) {
 
 	// ---- rule 4: reads only through io.ReadFull
 	readerDiscipline(p, r, "reader-discipline")
+	outputIndexCoversLoopsRule(p, r, "output-index-covers-loops")
 	membersThroughPush(p, r, "members-through-push")
 
 	r.Assume("VTA call graph is sound for non-reflective calls; encoding/json reflection edges to (Un)MarshalJSON are added by hand")
@@ -1049,4 +1085,181 @@ func helperUsers(p *core.Program, fn *ssa.Function) []string {
 	}
 	sort.Strings(out)
 	return out
+}
+
+// naturalLoops: for every back edge (src -> header, header dominating src) the set of blocks of that loop.
+func naturalLoops(fn *ssa.Function) map[*ssa.BasicBlock]map[*ssa.BasicBlock]bool {
+	out := map[*ssa.BasicBlock]map[*ssa.BasicBlock]bool{}
+	for _, b := range fn.Blocks {
+		for _, h := range b.Succs {
+			if !h.Dominates(b) {
+				continue
+			}
+			body := out[h]
+			if body == nil {
+				body = map[*ssa.BasicBlock]bool{h: true}
+				out[h] = body
+			}
+			// blocks that reach b without passing h
+			work := []*ssa.BasicBlock{b}
+			for len(work) > 0 {
+				x := work[len(work)-1]
+				work = work[:len(work)-1]
+				if body[x] {
+					continue
+				}
+				body[x] = true
+				work = append(work, x.Preds...)
+			}
+		}
+	}
+	return out
+}
+
+// outputIndexCoversLoopsRule (C03/C04): an element store into memory the function hands back is indexed by
+// something that moves with every loop around it.
+func outputIndexCoversLoopsRule(p *core.Program, r *core.Report, rule string) {
+	r.Rule(rule, "in the binary decoders (wkbcommon, wkb, ewkb) every element store `out[idx] = v` into a slice the function hands back (a slice parameter, or a slice that flows to a return) that sits inside loops has an index that depends on the induction state of each of those loops (a value defined by a phi of the loop's header, through arithmetic, conversions and inner phis): a store whose index ignores an enclosing loop is overwritten on every iteration of that loop, so decoded elements land on top of each other and the rest of the array keeps its zero fill", 2)
+	n := 0
+	for _, fn := range pkgFuncs(p, "encoding/wkbcommon", "encoding/wkb", "encoding/ewkb") {
+		if len(fn.Blocks) == 0 {
+			continue
+		}
+		loops := naturalLoops(fn)
+		if len(loops) == 0 {
+			continue
+		}
+		returned := map[ssa.Value]bool{}
+		for _, b := range fn.Blocks {
+			for _, in := range b.Instrs {
+				if ret, ok := in.(*ssa.Return); ok {
+					for _, rv := range ret.Results {
+						returned[sliceRoot(rv)] = true
+					}
+				}
+			}
+		}
+		ord := 0
+		for _, b := range fn.Blocks {
+			for _, in := range b.Instrs {
+				st, ok := in.(*ssa.Store)
+				if !ok {
+					continue
+				}
+				ia, ok := st.Addr.(*ssa.IndexAddr)
+				if !ok {
+					continue
+				}
+				if _, isSl := ia.X.Type().Underlying().(*types.Slice); !isSl {
+					continue
+				}
+				root := sliceRoot(ia.X)
+				_, isParam := root.(*ssa.Parameter)
+				if !isParam && !returned[root] {
+					continue // scratch memory of this activation
+				}
+				var around []*ssa.BasicBlock
+				for h, body := range loops {
+					if body[b] {
+						around = append(around, h)
+					}
+				}
+				if len(around) == 0 {
+					continue
+				}
+				sort.Slice(around, func(i, j int) bool { return around[i].Index < around[j].Index })
+				n++
+				ord++
+				bad := ""
+				for _, h := range around {
+					if !dependsOnHeaderPhi(ia.Index, h, map[ssa.Value]bool{}, 0) {
+						bad = fmt.Sprintf("the index %s of the store at %s does not move with the loop headed at block %d (%s): every iteration of that loop writes the same elements again", ia.Index.Name(), p.Pos(st.Pos()), h.Index, p.Pos(firstPos(h)))
+					}
+				}
+				r.Check(bad == "", rule, fmt.Sprintf("%s/store#%d", short(fn), ord), p.Pos(st.Pos()), true, fmt.Sprintf("index moves with all %d enclosing loops", len(around)), bad)
+			}
+		}
+	}
+	r.Count("output_element_stores_in_loops", n)
+}
+
+func firstPos(b *ssa.BasicBlock) token.Pos {
+	for _, in := range b.Instrs {
+		if in.Pos().IsValid() {
+			return in.Pos()
+		}
+	}
+	return token.NoPos
+}
+
+// sliceRoot strips re-slicing and conversions: the value whose backing array v views.
+func sliceRoot(v ssa.Value) ssa.Value {
+	for {
+		switch x := v.(type) {
+		case *ssa.Slice:
+			v = x.X
+		case *ssa.ChangeType:
+			v = x.X
+		case *ssa.Convert:
+			v = x.X
+		case *ssa.Phi:
+			// a slice grown in a loop: follow the first edge that is not the phi itself
+			var next ssa.Value
+			for _, e := range x.Edges {
+				if e != ssa.Value(x) {
+					next = e
+					break
+				}
+			}
+			if next == nil {
+				return v
+			}
+			if _, again := next.(*ssa.Phi); again {
+				return v
+			}
+			v = next
+		default:
+			return v
+		}
+	}
+}
+
+// dependsOnHeaderPhi: v is computed from a phi defined in block h.
+func dependsOnHeaderPhi(v ssa.Value, h *ssa.BasicBlock, seen map[ssa.Value]bool, depth int) bool {
+	if v == nil || seen[v] || depth > 12 {
+		return false
+	}
+	seen[v] = true
+	switch x := v.(type) {
+	case *ssa.Phi:
+		if x.Block() == h {
+			return true
+		}
+		for _, e := range x.Edges {
+			if dependsOnHeaderPhi(e, h, seen, depth+1) {
+				return true
+			}
+		}
+	case *ssa.BinOp:
+		return dependsOnHeaderPhi(x.X, h, seen, depth+1) || dependsOnHeaderPhi(x.Y, h, seen, depth+1)
+	case *ssa.UnOp:
+		return dependsOnHeaderPhi(x.X, h, seen, depth+1)
+	case *ssa.Convert:
+		return dependsOnHeaderPhi(x.X, h, seen, depth+1)
+	case *ssa.ChangeType:
+		return dependsOnHeaderPhi(x.X, h, seen, depth+1)
+	case *ssa.Extract:
+		return dependsOnHeaderPhi(x.Tuple, h, seen, depth+1)
+	case *ssa.Next:
+		// range over a map/string: the iterator advances with the loop that calls Next
+		return x.Block() == h || h.Dominates(x.Block())
+	case *ssa.Call:
+		// len(s) of a slice grown in the loop, min/max of loop values
+		for _, a := range x.Call.Args {
+			if dependsOnHeaderPhi(a, h, seen, depth+1) {
+				return true
+			}
+		}
+	}
+	return false
 }
